@@ -1,5 +1,8 @@
 """C19 - batches partition the work; option grids enumerate every combination once."""
+import copy
 import json
+
+import numpy as np
 
 from harness import common as cm
 
@@ -115,11 +118,165 @@ def mfield_term(key, val, kn):
     raise KeyError(key)
 
 
+# ---------------------------------------------------------------------------------------------
+# stored representations and object histories (state / identity / representation)
+
+def pyval(v):
+    """Python value of an option value / site id given in any scalar representation"""
+    if isinstance(v, (bool, np.bool_)):
+        raise TypeError("bool")
+    if isinstance(v, (int, np.integer)):
+        return int(v)
+    if isinstance(v, str):                       # numpy.str_ is a str
+        return str(v)
+    raise TypeError(type(v).__name__)
+
+
+def int_rep(rng, v):
+    """the integer v as a Python int or as a numpy integer scalar of a type that holds it"""
+    kinds = ["int", "int", "int64", "int32", "intp"]
+    if -2 ** 15 <= v < 2 ** 15:
+        kinds.append("int16")
+    if 0 <= v < 2 ** 8:
+        kinds.append("uint8")
+    if 0 <= v < 2 ** 16:
+        kinds.append("uint16")
+    kind = rng.choice(kinds)
+    return (kind, v) if kind == "int" else (f"np.{kind}", getattr(np, kind)(v))
+
+
+def scalar_rep(rng, v):
+    """a value of an option / a site id as the Python object or as the numpy scalar"""
+    if rng.random() < 0.5:
+        return "py", v
+    if isinstance(v, int):
+        return "np.int64", np.int64(v)
+    return "np.str_", np.str_(v)
+
+
+def container_rep(rng, vals, kinds=None):
+    """(name, object): the values `vals` (all integers or all strings, no duplicates) stored in one of the
+    containers a caller may hold them in.  Every object can be iterated more than once."""
+    import pandas as pd
+    isint = all(isinstance(v, int) for v in vals)
+    n = len(vals)
+    if kinds is None:
+        kinds = ["list", "list", "tuple", "ndarray", "ndarray_strided", "ndarray_negstride", "ndarray_readonly",
+                 "pd.Index", "pd.Series_shuffled_index", "pd.Series_text_index", "dict_keys", "ndarray_object"]
+        if isint:
+            kinds += ["ndarray_int32", "ndarray_bigendian"]
+            if n >= 2 and len({vals[i + 1] - vals[i] for i in range(n - 1)}) == 1 and vals[1] != vals[0]:
+                kinds += ["range"] * 6
+    kind = rng.choice(kinds)
+    base = np.array(vals)
+    if kind == "list":
+        return kind, list(vals)
+    if kind == "tuple":
+        return kind, tuple(vals)
+    if kind == "range":
+        d = vals[1] - vals[0]
+        return kind, range(vals[0], vals[-1] + (1 if d > 0 else -1), d)
+    if kind == "ndarray":
+        return kind, base.copy()
+    if kind == "ndarray_int32":
+        return kind, base.astype(np.int32)
+    if kind == "ndarray_bigendian":
+        return kind, base.astype(">i8")
+    if kind == "ndarray_object":
+        a = np.empty(n, dtype=object)
+        a[:] = list(vals)
+        return kind, a
+    if kind == "ndarray_strided":
+        return kind, np.repeat(base, 2)[::2]
+    if kind == "ndarray_negstride":
+        return kind, base[::-1].copy()[::-1]
+    if kind == "ndarray_readonly":
+        a = base.copy()
+        a.setflags(write=False)
+        return kind, a
+    if kind == "pd.Index":
+        return kind, pd.Index(list(vals))
+    if kind == "pd.Series_shuffled_index":
+        idx = list(range(n))
+        rng.shuffle(idx)
+        return kind, pd.Series(list(vals), index=idx)
+    if kind == "pd.Series_text_index":
+        return kind, pd.Series(list(vals), index=[f"r{j % 3}" for j in range(n)])   # duplicated labels
+    if kind == "dict_keys":
+        return kind, dict.fromkeys(vals).keys()
+    raise KeyError(kind)
+
+
+# containers on which OptionManager.__eq__ can be evaluated (== of two such objects is one truth value);
+# json.dumps accepts only the list
+EQ_CONTAINERS = ("list", "tuple", "range", "bare")
+
+
+def infer_keynames(hyruns):
+    """the key names in force, read off to_dict() of a one-task manager (public interface only)"""
+    opm = hyruns.OptionManager("probe", zz_ctx=1)
+    opm.from_cartesian_product(zz_opt=[5])
+    d = opm.to_dict()
+    out = {}
+    for k, v in d.items():
+        if v == {"zz_ctx": 1}:
+            out["context_name"] = k
+        elif v == {"zz_opt": [5]}:
+            out["manager_options_name"] = k
+    for k, v in d["tasks"][0].items():
+        if v == {"zz_opt": 5}:
+            out["task_options_name"] = k
+    if len(out) != 3:
+        raise KeyError("key names not recognised")
+    return out
+
+
+KN_POOL = {key: sorted({kn[key] for kn in KEYNAMES}) for key in KEYNAMES[0]}
+
+
+def derive_spec(rng, prev, maxprod):
+    """the option dictionary of the next from_cartesian_product call on a manager built with `prev`"""
+    if prev is None or rng.random() < 0.25:
+        return rand_spec(rng, maxprod)
+    for _ in range(20):
+        kind = rng.choice(["same", "values", "values", "permute", "keys"])
+        spec = {k: (list(v) if isinstance(v, list) else v) for k, v in prev.items()}
+        if kind == "values":        # same options, other values
+            for k in rng.sample(list(spec), rng.randint(1, len(spec))):
+                pool = INTS if isinstance(spec[k], int) or (isinstance(spec[k], list) and spec[k]
+                                                             and isinstance(spec[k][0], int)) else IDENTS
+                spec[k] = rng.sample(pool, rng.randint(1, 5))
+        elif kind == "permute":
+            for k in spec:
+                if isinstance(spec[k], list):
+                    rng.shuffle(spec[k])
+            items = list(spec.items())
+            rng.shuffle(items)
+            spec = dict(items)
+        elif kind == "keys":        # one option dropped and / or one added
+            if len(spec) > 1 and rng.random() < 0.6:
+                del spec[rng.choice(list(spec))]
+            free = [k for k in IDENTS if k not in spec]
+            if len(spec) < 4 and rng.random() < 0.7:
+                spec[rng.choice(free)] = rng.sample(rng.choice([INTS, IDENTS]), rng.randint(1, 4))
+        n = 1
+        for v in spec.values():
+            n *= len(v) if isinstance(v, list) else 1
+        if n <= maxprod:
+            return spec
+    return rand_spec(rng, maxprod)
+
+
 def run(ctx):
     ctx.rule = ("get_batch: every (n,k,i) with n<=N, k in 0..n+1, i in -1..k (exhaustive), plus random n up "
                 "to 1e6; SiteBatch.search on random duplicate-free site lists; option managers with 1-4 "
                 "options of 1-5 values (ints, identifier strings, bare scalars), contexts, 4 key-name "
-                "settings; JSON round trip; non-trivial = distinct (kind, shape) signature")
+                "settings; JSON round trip; the same statements along object histories (results of get_batch / "
+                "SiteBatch[i] modified in place by the caller, several SiteBatch / OptionManager objects alive, "
+                "from_cartesian_product called again on the same manager, key names set / reset between to_dict "
+                "and from_dict) and for the stored representations of the same values (Python / numpy integer "
+                "scalars, lists, tuples, ranges, numpy arrays of several dtypes / strides / byte orders / read-only, "
+                "pandas Index / Series, dict keys; text site ids); non-trivial = distinct (kind, shape) signature")
     ctx.trusted = cm.STD_TRUST + [
         "numpy.array_split sizes n//k+[i<n%k] and re.search on metacharacter-free strings are assumptions of the model, validated by the correspondence"]
     ctx.tested_not_proved = ["json.dump/json.load round trip (library)", "__str__/log glue"]
@@ -127,6 +284,11 @@ def run(ctx):
     proved = cm.prove(ctx, extractors=["pygen"], extra_targets=["Props/PyTieScores.vo"])
     cm.use_impl()
     from hydrodiy.io import hyruns
+    # the default key names, read before any of them is changed (public interface only)
+    try:
+        defaults = infer_keynames(hyruns)
+    except Exception:  # noqa
+        defaults = dict(KEYNAMES[0])
     rng = ctx.rng
     terms, replays = [], []
     orc_fail = set()
@@ -269,6 +431,409 @@ def run(ctx):
                   dict(rep, call="from_dict(to_dict())", eq_ab=ab, eq_ba=ba), ("round", kn["context_name"]))
         if not (ab and ba and same_tasks):
             fail(idx, "C19/roundtrip/not-equal", "manager differs after to_dict/from_dict")
+
+
+    # =========================================================================================
+    # state / identity / representation: the same statements along object histories and for
+    # every stored representation of the same numbers / values
+    # ---- get_batch: integer arguments in any integer representation; results modified in place by
+    #      the caller between calls (a batch handed out must not be shared with a later answer)
+    for _ in range(ctx.scale(150, 1500)):
+        n = rng.randint(1, 40) if rng.random() < 0.8 else rng.randint(41, 400)
+        k = rng.randint(1, min(n, 12)) if rng.random() < 0.7 else rng.randint(1, n)
+        hist = []
+        rounds = []
+        for rnd in range(2):
+            order = list(range(k))
+            rng.shuffle(order)
+            got = {}
+            for i in order:
+                (tn, an), (tk, ak), (ti, ai) = int_rep(rng, n), int_rep(rng, k), int_rep(rng, i)
+                step = {"op": "get_batch", "nelements": f"{tn}({n})", "nbatch": f"{tk}({k})",
+                        "ibatch": f"{ti}({i})"}
+                hist.append(step)
+                try:
+                    b = hyruns.get_batch(an, ak, ai)
+                    out = [int(x) for x in b]
+                except Exception as e:  # noqa
+                    b, out = None, None
+                    step["raised"] = f"{type(e).__name__}: {e}"[:200]
+                got[i] = out
+                step["impl"] = out if out is None or len(out) <= 12 else out[:3] + ["...", out[-1], f"len={len(out)}"]
+                idx = add(f"HBatch {cm.coq_z(n)} {cm.coq_z(k)} {cm.coq_z(i)} {cm.coq_option(out, cm.coq_zlist)}",
+                          {"call": "get_batch after the listed operations", "n": n, "k": k, "i": i, "impl": out,
+                           "history": list(hist)},
+                          ("batch-life", rnd, tn, tk, ti, min(n, 3)))
+                if out is None:
+                    fail(idx, "C19/get_batch/rejection", f"get_batch({tn}({n}),{tk}({k}),{ti}({i})) raised")
+                elif rnd == 1 and out != rounds[0][i]:
+                    fail(idx, "C19/get_batch/partition",
+                         f"get_batch({n},{k},{i}) differs after the caller modified earlier results in place")
+                # the caller modifies what it was given
+                if b is not None and len(b) and rng.random() < 0.8:
+                    how = rng.choice(["shift", "fill", "reverse"])
+                    try:
+                        if how == "shift":
+                            b[:] = [x + 1000 for x in out]
+                        elif how == "fill":
+                            b[:] = [-1] * len(out)
+                        else:
+                            b[:] = out[::-1]
+                        hist.append({"op": f"in-place modification of that result ({how})"})
+                    except (ValueError, TypeError):      # a read-only / immutable result cannot be modified: fine
+                        pass
+            rounds.append(got)
+            if all(v is not None for v in got.values()):
+                flat = [x for i in range(k) for x in got[i]]
+                sizes = [len(got[i]) for i in range(k)]
+                ctx.count()
+                if flat != list(range(n)) or max(sizes) - min(sizes) > 1:
+                    idx = add(f"HBatch {cm.coq_z(n)} {cm.coq_z(k)} 0%Z {cm.coq_option(got[0], cm.coq_zlist)}",
+                              {"call": "get_batch, all batches, after the listed operations", "n": n, "k": k,
+                               "batches": [got[i] for i in range(k)] if n <= 60 else "large",
+                               "history": list(hist)}, ("batch-life-part", rnd))
+                    fail(idx, "C19/get_batch/partition",
+                         f"batches of get_batch({n},{k},.) do not partition range({n}) evenly "
+                         f"(round {rnd + 1} of a call sequence)")
+
+    # ---- SiteBatch: site lists in every stored representation, several objects alive, returned batches
+    #      modified by the caller, repeated searches
+    def site_universe(n, text):
+        nums = rng.sample(range(100, 400), n)
+        if not text:
+            return nums, nums
+        pre = rng.choice(["", "A", "st_"])
+        return nums, [f"{pre}{x}" for x in nums]
+
+    for _ in range(ctx.scale(90, 900)):
+        n = rng.randint(1, 25)
+        nums, sites = site_universe(n, rng.random() < 0.4)
+        znum = dict(zip(sites, nums))
+        hist = []
+        objs = []
+        for o in range(rng.choice([1, 1, 2])):
+            k = rng.randint(1, n)
+            cname, cont = container_rep(rng, sites)
+            while cname in ("dict_keys",):            # a site list is a sequence (numpy.array of a view is 0-d)
+                cname, cont = container_rep(rng, sites)
+            hist.append({"op": "SiteBatch", "object": o, "siteids": f"{cname} of {sites}", "nbatch": k})
+            try:
+                sb = hyruns.SiteBatch(cont, k)
+            except Exception as e:  # noqa
+                idx = add(f"HSearch {cm.coq_zlist(nums)} {cm.coq_z(k)} {cm.coq_z(nums[0])} None",
+                          {"call": "SiteBatch(siteids, nbatch)", "sites": sites, "container": cname, "nbatch": k,
+                           "raised": f"{type(e).__name__}: {e}"[:200]}, ("sb-life-ctor", cname))
+                fail(idx, "C19/search/wrong-batch", f"SiteBatch({cname} of distinct sites, {k}) raised")
+                continue
+            # the batches of the fresh object: every site exactly once, sizes differing by at most one
+            try:
+                want = [[pyval(x) for x in sb[i]] for i in range(k)]
+                ok = sorted(x for b in want for x in b) == sorted(sites) and \
+                    max(map(len, want)) - min(map(len, want)) <= 1
+            except Exception:  # noqa
+                want, ok = None, False
+            if not ok:
+                idx = add(f"HSearch {cm.coq_zlist(nums)} {cm.coq_z(k)} {cm.coq_z(nums[0])} None",
+                          {"call": "[SiteBatch(siteids, nbatch)[i] for i in range(nbatch)]", "sites": sites,
+                           "container": cname, "nbatch": k, "impl_batches": str(want)[:600],
+                           "history": list(hist)}, ("sb-life-part", cname))
+                fail(idx, "C19/search/wrong-batch",
+                     f"the batches of SiteBatch({cname} of {n} sites, {k}) do not hold every site exactly once "
+                     "in batches of even size")
+                continue
+            objs.append((o, sb, k, want, cname))
+        for _step in range(rng.randint(2, 6)):
+            if not objs:
+                break
+            o, sb, k, want, cname = rng.choice(objs)
+            if rng.random() < 0.35:
+                j = rng.randrange(k)
+                try:
+                    lst = sb[j]
+                    how = rng.choice(["clear", "reverse", "pop", "overwrite"])
+                    step = {"op": f"b = object{o}[{j}]; in-place modification of b ({how})"}
+                    if list(lst) != want[j]:
+                        step["impl_batch"] = str(lst)[:300]
+                        hist.append(step)
+                        idx = add(f"HSearch {cm.coq_zlist(nums)} {cm.coq_z(k)} {cm.coq_z(znum[want[j][0]])} None",
+                                  {"call": f"SiteBatch[{j}] after the listed operations", "sites": sites,
+                                   "container": cname, "nbatch": k, "want": want[j], "history": list(hist)},
+                                  ("sb-life-item", cname))
+                        fail(idx, "C19/search/wrong-batch",
+                             f"batch {j} of the SiteBatch is not what it was before the listed operations")
+                        continue
+                    if how == "clear":
+                        lst.clear()
+                    elif how == "reverse":
+                        lst.reverse()
+                    elif how == "pop":
+                        lst.pop()
+                    else:
+                        lst[0] = 7
+                    hist.append(step)
+                except (AttributeError, TypeError, ValueError):   # an immutable batch cannot be modified: fine
+                    pass
+                continue
+            s = rng.choice(sites) if rng.random() < 0.85 else (7 if sites is nums else "7")
+            sname, sarg = scalar_rep(rng, s)
+            step = {"op": "search", "object": o, "site": f"{sname}({s!r})"}
+            hist.append(step)
+            try:
+                out = sb.search(sarg)
+                out = None if out is None else int(out)
+            except Exception as e:  # noqa
+                out = "raised"
+                step["raised"] = f"{type(e).__name__}: {e}"[:200]
+            step["impl"] = out
+            idx = add(f"HSearch {cm.coq_zlist(nums)} {cm.coq_z(k)} {cm.coq_z(znum.get(s, 7))} "
+                      f"{cm.coq_option(None if out == 'raised' else out, cm.coq_z)}",
+                      {"call": "SiteBatch.search after the listed operations", "sites": sites, "container": cname,
+                       "nbatch": k, "site": s, "site_as": sname, "impl": out, "history": list(hist)},
+                      ("sb-life", cname, sname, out is None, len(objs)))
+            if out == "raised":
+                fail(idx, "C19/search/wrong-batch", f"search({s!r}) raised")
+            elif s in znum:
+                if out is None or not (0 <= out < k) or s not in want[out]:
+                    fail(idx, "C19/search/wrong-batch",
+                         f"search({s!r}) -> {out} on a SiteBatch built from a {cname} (after the listed operations)")
+            elif out is not None:
+                fail(idx, "C19/search/phantom", f"search of an unknown site -> {out}")
+
+    # ---- option managers: several managers alive, rebuilt on the same object, values in every container,
+    #      key names changed / reset between the operations, dictionaries reloaded later
+    maxprod = ctx.scale(36, 120)
+
+    def session():
+        hist = [{"op": "reset_dict_keyname"}]
+        hyruns.reset_dict_keyname()
+        cur = dict(defaults)                      # the key names in force according to the calls made
+        mans = []                                 # [manager, context, spec0 | None, containers, generation]
+        dumps = []                                # (manager index, generation, text or dict, key names)
+        for m in range(rng.choice([1, 2, 2])):
+            context = rand_context(rng)
+            name = rng.choice(["mgr", "Task Manager", f"m{m}"])
+            hist.append({"op": "OptionManager", "manager": m, "name": name, "context": context})
+            mans.append([hyruns.OptionManager(name, **copy.deepcopy(context)), context, None, None, 0])
+
+        def snapshot(m):
+            """(options, tasks) of the manager as Python values, None when they are not option values"""
+            opm = mans[m][0]
+            try:
+                return ({str(k): [pyval(x) for x in v] for k, v in opm.options.items()},
+                        [{str(k): pyval(x) for k, x in t.items()} for t in opm.tasks])
+            except Exception:  # noqa
+                return None, None
+
+        def verify(m, what):
+            opm, context, spec0, conts, _gen = mans[m]
+            options, tasks = snapshot(m)
+            rep = {"call": what, "manager": m, "spec": spec0, "containers": conts, "context": context,
+                   "keynames": dict(cur), "history": list(hist)}
+            spec_t = "[" + "; ".join(
+                f"({cm.coq_string(k)}, " + (f"OIter {cvlist(v)}" if isinstance(v, list) else f"OBare {cv(v)}") + ")"
+                for k, v in spec0.items()) + "]"
+            if tasks is None:
+                idx = add(f"HProduct {spec_t} [] []", dict(rep, impl_tasks=str(opm.tasks)[:400]),
+                          ("life-product", "unreadable"))
+                fail(idx, "C19/product/enumeration", "the tasks do not hold option values")
+                return
+            idx = add(f"HProduct {spec_t} {cdict(options, cvlist)} [{'; '.join(cdict(t, cv) for t in tasks)}]",
+                      dict(rep, impl_tasks=tasks[:6], impl_ntasks=len(tasks)),
+                      ("life-product", what.split(":")[0], len(spec0), len(tasks) > 1, tuple(sorted(set(conts.values())))))
+            lists = [v if isinstance(v, list) else [v] for v in spec0.values()]
+            want = [[]]
+            for l in lists:
+                want = [w + [x] for w in want for x in l]
+            if any(list(t.keys()) != list(spec0.keys()) for t in tasks) or \
+                    sorted(repr(tuple(t[k] for k in spec0)) for t in tasks) != sorted(repr(tuple(w)) for w in want):
+                fail(idx, "C19/product/enumeration",
+                     f"tasks are not every combination exactly once ({what}; {len(tasks)} tasks, "
+                     f"{len(want)} combinations)")
+                return
+            try:
+                same = all(opm.get_task(i).options is opm.tasks[i] or opm.get_task(i).options == opm.tasks[i]
+                           for i in range(opm.ntasks)) and opm.ntasks == len(tasks)
+            except Exception:  # noqa
+                same = False
+            if not same:
+                fail(idx, "C19/get_task", "get_task(i).options differs from tasks[i]")
+            # find
+            for key in rng.sample(list(spec0), min(2, len(spec0))):
+                vals = lists[list(spec0).index(key)]
+                for v in rng.sample(vals, min(3, len(vals))) + [rng.choice([99, "zzz", "mon", 1, "x"])]:
+                    vname, varg = scalar_rep(rng, v)
+                    try:
+                        found = [int(i) for i in opm.find(**{key: varg})]
+                    except Exception as e:  # noqa
+                        found = None
+                        rep["raised"] = f"{type(e).__name__}: {e}"[:200]
+                    idx = add(f"HFind {cdict(options, cvlist)} {cm.coq_string(key)} {cv(v)} "
+                              f"{cm.coq_zlist(found if found is not None else [-1])}",
+                              dict(rep, call=f"find ({what})", key=key, value=v, value_as=vname, impl=found),
+                              ("life-find", bool(found), vname, len(spec0)))
+                    if found != [i for i, t in enumerate(tasks) if t[key] == v]:
+                        fail(idx, "C19/find/wrong-tasks", f"find({key}={v!r}) -> {found} ({what})")
+            # to_dict under the key names in force
+            try:
+                dd = opm.to_dict()
+                fields = "[" + "; ".join(f"({cm.coq_string(k)}, {mfield_term(k, norm_field(v2), cur)})"
+                                         for k, v2 in dd.items()) + "]"
+            except Exception as e:  # noqa
+                fields = "[]"
+                rep["to_dict"] = f"{type(e).__name__}: {e}"[:200]
+            man = cmanager(opm.name, context, options, tasks)
+            add(f"HDict {ckn(cur)} {man} {fields}", dict(rep, call=f"to_dict ({what})"),
+                ("life-dict", cur["context_name"], cur["task_options_name"], cur["manager_options_name"]))
+
+        def norm_field(v):
+            """to_dict values as Python values (option values may be numpy scalars / containers)"""
+            if isinstance(v, dict):
+                return {str(k): norm_field(x) for k, x in v.items()}
+            if isinstance(v, str):
+                return str(v)
+            if isinstance(v, (int, np.integer)) and not isinstance(v, bool):
+                return int(v)
+            if hasattr(v, "__iter__"):
+                return [norm_field(x) for x in v]
+            return v
+
+        def set_names(target):
+            """reach the key names `target` with the public calls: reset, then the names that differ"""
+            hyruns.reset_dict_keyname()
+            hist.append({"op": "reset_dict_keyname"})
+            cur.clear()
+            cur.update(defaults)
+            for key, name in target.items():
+                if cur[key] != name:
+                    hyruns.set_dict_keyname(key, name)
+                    hist.append({"op": "set_dict_keyname", "key": key, "name": name})
+                    cur[key] = name
+
+        def step(r):
+            """one operation; False ends the session (a failure was reported)"""
+            m = rng.randrange(len(mans))
+            opm, context, spec_prev, _c, gen = mans[m]
+            if r < 0.35 or all(x[2] is None for x in mans):
+                # (re)build the product on this manager
+                spec0 = derive_spec(rng, spec_prev, maxprod)
+                shared = {}
+                spec_rep, conts = {}, {}
+                for key, v in spec0.items():
+                    if isinstance(v, list):
+                        if rng.random() < 0.5:
+                            conts[key], spec_rep[key] = "list", list(v)
+                        else:
+                            conts[key], spec_rep[key] = container_rep(rng, v)
+                        sig = repr(v)
+                        if sig in shared and rng.random() < 0.5:      # the same object given for two options
+                            conts[key], spec_rep[key] = shared[sig]
+                        shared[sig] = (conts[key], spec_rep[key])
+                    else:
+                        conts[key], spec_rep[key] = "bare", v
+                hist.append({"op": "from_cartesian_product", "manager": m,
+                             "options": {k: f"{conts[k]}: {spec0[k]!r}" for k in spec0}})
+                mans[m][2], mans[m][3], mans[m][4] = spec0, conts, gen + 1
+                try:
+                    opm.from_cartesian_product(**spec_rep)
+                except Exception as e:  # noqa
+                    idx = add("HProduct [] [] [[(\"raised\", VInt 0%Z)]]",
+                              {"call": "from_cartesian_product", "manager": m, "spec": spec0, "containers": conts,
+                               "raised": f"{type(e).__name__}: {e}"[:200], "history": list(hist)},
+                              ("life-product", "raised"))
+                    fail(idx, "C19/product/enumeration", f"from_cartesian_product raised {type(e).__name__}")
+                    return False
+                verify(m, "build" if gen == 0 else f"rebuild: call {gen + 1} of from_cartesian_product on the same manager")
+                # the other manager alive is unchanged
+                for m2 in range(len(mans)):
+                    if m2 != m and mans[m2][2] is not None and rng.random() < 0.5:
+                        verify(m2, "other: after an operation on another manager")
+            elif r < 0.60:
+                # change of the key names
+                q = rng.random()
+                if q < 0.3:
+                    hyruns.reset_dict_keyname()
+                    hist.append({"op": "reset_dict_keyname"})
+                    cur.clear()
+                    cur.update(defaults)
+                elif q < 0.7:
+                    key = rng.choice(list(KN_POOL))
+                    name = rng.choice(KN_POOL[key])
+                    hyruns.set_dict_keyname(key, name)
+                    hist.append({"op": "set_dict_keyname", "key": key, "name": name})
+                    cur[key] = name
+                else:
+                    set_names(rng.choice(KEYNAMES))
+            elif r < 0.80:
+                # dictionary / JSON text written now, read back later
+                if mans[m][2] is None:
+                    return True
+                as_json = all(c == "list" or c == "bare" for c in mans[m][3].values()) and rng.random() < 0.7
+                if not all(c in EQ_CONTAINERS for c in mans[m][3].values()):
+                    return True
+                try:
+                    d = opm.to_dict()
+                    d = json.dumps(d) if as_json else d
+                except Exception as e:  # noqa
+                    idx = add(f"HRound {ckn(cur)} {cmanager(opm.name, context, {}, [])} true true",
+                              {"call": "to_dict / json.dumps", "manager": m, "spec": mans[m][2],
+                               "raised": f"{type(e).__name__}: {e}"[:200], "history": list(hist)}, ("life-round", "raised"))
+                    fail(idx, "C19/roundtrip/not-equal", "to_dict / json.dumps raised")
+                    return True
+                hist.append({"op": "d%d = %s" % (len(dumps), "json.dumps(manager.to_dict())" if as_json
+                                                 else "manager.to_dict()"), "manager": m})
+                dumps.append((m, mans[m][4], d, dict(cur), as_json))
+            else:
+                # read a dictionary back under the key names it was written with
+                live = [(j, x) for j, x in enumerate(dumps) if mans[x[0]][4] == x[1]]
+                if not live:
+                    return True
+                j, (m, _g, d, names, as_json) = rng.choice(live)
+                opm, context, spec0, conts, _gen = mans[m]
+                if names != cur:
+                    set_names(names)
+                hist.append({"op": f"OptionManager.from_dict({'json.loads(d%d)' % j if as_json else 'd%d' % j})"})
+                options, tasks = snapshot(m)
+                try:
+                    opm2 = hyruns.OptionManager.from_dict(json.loads(d) if as_json else d)
+                    ab, ba = bool(opm == opm2), bool(opm2 == opm)
+                    same_tasks = [dict(t) for t in opm2.tasks] == [dict(t) for t in opm.tasks] \
+                        and opm2.name == opm.name and dict(opm2.context) == context
+                    err = None
+                except Exception as e:  # noqa
+                    ab = ba = same_tasks = False
+                    err = f"{type(e).__name__}: {e}"[:200]
+                man = cmanager(opm.name, context, options or {}, tasks or [])
+                idx = add(f"HRound {ckn(cur)} {man} {cm.coq_bool(ab)} {cm.coq_bool(ba)}",
+                          {"call": "from_dict of a dictionary written earlier under the same key names",
+                           "manager": m, "spec": spec0, "containers": conts, "context": context,
+                           "keynames": dict(cur), "json": as_json, "eq_ab": ab, "eq_ba": ba, "raised": err,
+                           "history": list(hist)},
+                          ("life-round", cur["context_name"], cur["manager_options_name"], as_json))
+                if not (ab and ba and same_tasks):
+                    fail(idx, "C19/roundtrip/not-equal",
+                         "manager differs after to_dict ... from_dict (same key names in force at both ends, "
+                         "other operations in between)")
+                    return False
+            return True
+
+        nsteps = rng.randint(3, 8)
+        while nsteps > 0:
+            nsteps -= 1
+            r = rng.random()
+            if r < 0.25 and any(x[2] is not None for x in mans):
+                # a dictionary written now, other operations (among them changes of the key names), read back
+                seq = [0.7] + [rng.choice([0.4, 0.5, 0.2]) for _ in range(rng.randint(1, 3))] + [0.9]
+            else:
+                seq = [r]
+            for q in seq:
+                if not step(q):
+                    return
+
+    for _ in range(ctx.scale(110, 1500)):
+        try:
+            session()
+        finally:
+            hyruns.reset_dict_keyname()
 
     bad, nshards, failed = cm.run_case_files(PID, HEADER, "hcase", "h_ok", terms, shard=1500, max_bytes=200000)
     ctx.notes["correspondence_cases"] = len(terms)
